@@ -4,7 +4,7 @@ import SkyllhModel.Model.StoreIO
 open Proto Store StoreIO
 
 /-  stateful line protocol (state = heap-layer store + value-layer tables, run in lock step):
-      reset | push | pop
+      reset | push | pop | freeze d m   (column m of container d becomes a read-only array)
       append c d | appendField c n dt vals | setItem c n dt vals | removeField c n
       rename c o:n,o:n must | tidyUp c keep | getSel c i|m list | setSel c i|m list d
       sortBy c n perm | copy c N|keep | setDtype c n dt | convert c dt:dt,.. exc | indices c
@@ -13,12 +13,18 @@ open Proto Store StoreIO
     answer:  H=<res> T=<res> | <heap containers ;-separated> | <tables ;-separated>
 -/
 
-abbrev DState1 := St × List Table
+/-- heap-layer store + read-only locations, plain tables -/
+abbrev DState1 := (St × List Loc) × List Table
 /-- current state + a stack of saved states (`push` / `pop`: depth-first enumeration of histories) -/
 abbrev DState := DState1 × List DState1
 
 def answer1 (st : DState1) (line : String) : DState1 × String :=
   match tokens line with
+  | ["freeze", d, m] =>
+    -- the array that is column m of container d becomes read-only
+    match (st.1.1.conts[pN d]?).bind (fun c => c.fields.lookup (pN m)) with
+    | some l => (((st.1.1, l :: st.1.2), st.2), "ok")
+    | none => (st, "no-such-column")
   | toks =>
     let xop : Option XOp := match toks with
       | ["appendFieldFrom", c, n, d, m] => some (.appendFieldFrom (pN c) (pN n) (pN d) (pN m))
@@ -28,17 +34,18 @@ def answer1 (st : DState1) (line : String) : DState1 × String :=
     match xop with
     | none => (st, "bad-op")
     | some op =>
-      let (s', rh) := stepX st.1 op
-      let (t', rt) := stepTX st.2 op
-      ((s', t'), s!"H={fRes rh} T={fRes rt} | {semi (s'.conts.map (fCont s'.heap))} | {semi (t'.map fTable)}")
+      let (s', rh) := stepXR st.1.2 st.1.1 op
+      -- the plain tables know nothing about read-only arrays: a blocked set_selection leaves them alone
+      let (t', rt) := if roBlocked st.1.2 st.1.1 op then (st.2, rh) else stepTX st.2 op
+      (((s', st.1.2), t'), s!"H={fRes rh} T={fRes rt} | {semi (s'.conts.map (fCont s'.heap))} | {semi (t'.map fTable)}")
 
 def answer (st : DState) (line : String) : DState × String :=
   match tokens line with
-  | ["reset"] => (((⟨[], []⟩, []), []), "ok")
+  | ["reset"] => ((((⟨[], []⟩, []), []), []), "ok")
   | ["push"] => ((st.1, st.1 :: st.2), "ok")
   | ["pop"] => match st.2 with
     | top :: rest => ((top, rest), "ok")
     | [] => (st, "bad-pop")
   | _ => let (s', out) := answer1 st.1 line; ((s', st.2), out)
 
-def main : IO Unit := do loopS (← IO.getStdin) (((⟨[], []⟩, []), []) : DState) answer
+def main : IO Unit := do loopS (← IO.getStdin) ((((⟨[], []⟩, []), []), []) : DState) answer
